@@ -138,6 +138,44 @@ Section GroupKeys.
     Open (Kdf seed info) nonce info ct tag.
 End GroupKeys.
 
+(** APQ topic keys (apq.rs): [TopicKey::from_seed] derives the AEAD key once
+    from (seed, version, topic); [seal_message] / [open_message] bind version,
+    topic and BOTH ids of the sender (encryption key, signing key) in the AD. *)
+Fixpoint be_bytes4 (n : nat) (v : N) : bytes :=
+  match n with O => [] | S n' => be_bytes4 n' (v / 256) ++ [v mod 256] end.
+Definition version_bytes (v : N) : bytes := be_bytes4 4 v.
+
+Section TopicKeys.
+  Variable oids : list bytes.
+  Variable H : bytes -> bytes.
+  Variable AKey : Type.
+  Variable Seal : AKey -> bytes -> bytes -> bytes -> bytes * bytes.
+  Variable Open : AKey -> bytes -> bytes -> bytes -> bytes -> option bytes.
+  Variable Kdf : bytes -> bytes -> AKey.      (* seed, concatenated expand info -> key *)
+
+  Record tk_ctx := { t_version : bytes; t_topic : bytes; t_enc_id : bytes; t_sign_id : bytes }.
+  Definition tk_env (c : tk_ctx) : env := fun a =>
+    if String.eqb a "version.to_be_bytes()[..]" then t_version c
+    else if String.eqb a "version.to_be_bytes()" then t_version c
+    else if String.eqb a "topic.as_bytes()[..]" then t_topic c
+    else if String.eqb a "topic" then t_topic c
+    else if String.eqb a "ident.enc_key.id()" then t_enc_id c
+    else if String.eqb a "ident.sign_key.id()" then t_sign_id c
+    else [].
+  (** [TopicKey::derive_key]: the key of a topic key created for (version, topic) *)
+  Definition tk_key (seed version topic : bytes) : AKey :=
+    Kdf seed (concat (map (tk_env {| t_version := version; t_topic := topic; t_enc_id := []; t_sign_id := [] |})
+                          topic_expand_info_args)).
+  Definition tk_seal_ad (c : tk_ctx) : bytes := H (topic_msg_seal_ad_input oids (tk_env c)).
+  Definition tk_open_ad (c : tk_ctx) : bytes := H (topic_msg_open_ad_input oids (tk_env c)).
+  (** [TopicKey::seal_message]: nonce || ciphertext || tag *)
+  Definition tk_seal_message (key : AKey) (c : tk_ctx) (nonce pt : bytes) : bytes :=
+    let '(ct, tag) := Seal key nonce (tk_seal_ad c) pt in nonce ++ ct ++ tag.
+  (** [TopicKey::open_message] on a split input *)
+  Definition tk_open_message (key : AKey) (c : tk_ctx) (nonce ct tag : bytes) : option bytes :=
+    Open key nonce (tk_open_ad c) ct tag.
+End TopicKeys.
+
 (** HPKE (RFC 9180, DHKEM) at the level of its key schedule: used by sealed
     group keys (mode base), PSK seeds and topic keys (mode auth) and AFC
     unidirectional channels (mode auth, deterministic ephemeral key). *)
@@ -222,5 +260,17 @@ Section Hpke.
     (enc, Seal key info seed).
   Definition open_psk_seed (r : SK) (pkS : PK) (enc : PK) (ct tag group : bytes) : option bytes :=
     let info := info_struct_input site_psk_open_info (group_env group) in
+    Open (hpke_recv enc r (Some pkS) info) info ct tag.
+
+  (** [ReceiverPublicKey::seal_topic_key] / [ReceiverSecretKey::open_topic_key] (mode auth):
+      info struct TopicKeyRotation-v1 || version (u32 BE) || topic, also the AEAD's AD *)
+  Definition rot_env (version topic : bytes) : env := fun a =>
+    if String.eqb a "version" then version else if String.eqb a "topic" then topic else [].
+  Definition seal_topic_key (e sender : SK) (pkR : PK) (seed version topic : bytes) : PK * (bytes * bytes) :=
+    let info := info_struct_input site_topic_seal_info (rot_env version topic) in
+    let '(enc, key) := hpke_send e (Some sender) pkR info in
+    (enc, Seal key info seed).
+  Definition open_topic_key (r : SK) (pkS : PK) (enc : PK) (ct tag version topic : bytes) : option bytes :=
+    let info := info_struct_input site_topic_open_info (rot_env version topic) in
     Open (hpke_recv enc r (Some pkS) info) info ct tag.
 End Hpke.
